@@ -88,6 +88,8 @@ def handle (fields : List String) : String :=
     -- an empty `marker` field is `None` (Python treats `""` the same way)
     let mk : Option Str := if marker.isEmpty then none else some (decStr marker)
     encStr (mdBlockCode mk (decStr info) (decStr code))
+  | ["md_heading", level, text] => encStr (mdHeading level.toNat! (decStr text))
+  | ["md_thematic_break"] => encStr mdThematicBreak
   | ["split", s] => encList (splitWs isSpace (decStr s))
   | ["strip", s] => encStr (stripWs isSpace (decStr s))
   | ["fold", s] => encStr ((decStr s).flatMap foldChar)
